@@ -1311,7 +1311,7 @@ func (g *gen) runDeferredClosure(mc *ssa.MakeClosure, fn *ssa.Function) {
 
 // bodyInternal: the clause mentions calls, loops or locals of the function body it belongs to
 func bodyInternal(text string) bool {
-	for _, k := range []string{"res(", "callarg(", "exhausted(", "rangeindex", "rangeslice"} {
+	for _, k := range []string{"res(", "callarg(", "exhausted(", "called(", "rangeindex", "rangeslice"} {
 		if strings.Contains(text, k) {
 			return true
 		}
